@@ -63,6 +63,24 @@ def _okey_gen(rng, tier):
             yield {"self": _mk(spec), "shape": shape, "linear_index": rng.randrange(0, 12)}
 
 
+def _vshape_gen(rng, tier):
+    """Arguments as MapSpec.shape passes them, with single faults: surplus / missing names, wrong ranks, internal
+    shapes for unknown names; input-shape dicts in any order."""
+    for spec in ref.all_small_specs()[:250] + ref.gen_specs(rng, 80):
+        m = _mk(spec)
+        names = list(m.input_names)
+        base = {n: tuple(rng.choice((1, 2, 3)) for _ in dict(spec["inputs"])[n]) for n in names}
+        variants = [base]
+        if names:
+            n0 = rng.choice(names)
+            variants += [{**base, n0: base[n0] + (2,)}, {k: v for k, v in base.items() if k != n0}, {**base, "zz": (1,)},
+                         {k: base[k] for k in reversed(names)}]
+        for shapes in variants:
+            for internal in (None, {}, {m.output_names[0]: (2,)}, {"nope": (2,)}):
+                yield {"input_names": set(names), "input_shapes": shapes, "inputs": m.inputs,
+                       "internal_shapes": internal, "output_names": m.output_names}
+
+
 def _odim_gen(rng, tier):
     from pipefunc.map._mapspec import ArraySpec
     for shapes in [{}, {"y": (2,)}, {"y": (2, 3)}, {"z": (1,)}]:
@@ -86,6 +104,8 @@ def proof_items():
                   why_bounded="filter by membership in a set built by a two-generator comprehension"),
         # which element of every input the call with linear index l receives
         ProofItem(cm.mapspec_input_keys, gen=_okey_gen),
+        # what shape() rejects: surplus / missing arrays, rank mismatch, internal shape for a non-output
+        ProofItem(cm.validate_shapes, gen=_vshape_gen),
     ]
 
 
